@@ -60,7 +60,7 @@ func loadBundleJS(e jsx.Engine, reg *template.Registry, js map[string]string) (s
 }
 
 // literal sites: how a string that originates in the template reaches the output
-var c14Sites = []string{"literal-block", "string-literal", "string-literal-concat", "map-key", "map-value", "css-name", "msg-text", "msg-text-translated", "global-string", "global-list", "global-map", "param-value-literal", "let-content-text", "switch-case-literal", "directive-arg-literal"}
+var c14Sites = []string{"css-name-with-base", "literal-block", "string-literal", "string-literal-concat", "map-key", "map-value", "css-name", "msg-text", "msg-text-translated", "global-string", "global-list", "global-map", "param-value-literal", "let-content-text", "switch-case-literal", "directive-arg-literal"}
 
 // c14Case builds a one-file bundle in which literal s reaches the output through the site; ok=false if the site cannot carry s.
 func c14Case(site, s string) (src string, globals map[string]ref.Value, want string, ok bool) {
@@ -93,6 +93,11 @@ func c14Case(site, s string) (src string, globals map[string]ref.Value, want str
 			return "", nil, "", false
 		}
 		return hdr + "{css " + s + "}" + ftr, nil, s, true
+	case "css-name-with-base":
+		if strings.ContainsAny(s, "}{,\n\r") || strings.TrimSpace(s) != s || s == "" || strings.Contains(s, "/*") || strings.Contains(s, "//") {
+			return "", nil, "", false
+		}
+		return hdr + "{css 'base', " + s + "}" + ftr, nil, "base-" + s, true
 	case "msg-text", "msg-text-translated":
 		if strings.ContainsAny(s, "{}\n\r\t") || strings.TrimSpace(s) != s || s == "" || strings.Contains(s, "/*") || strings.Contains(s, "//") || strings.Contains(s, "  ") {
 			return "", nil, "", false
